@@ -4,7 +4,7 @@
    millisecond clock shifted by co / cp, all modulo 2^32. *)
 From Coq Require Import ZArith List Bool.
 From KV.Base Require Import Consts Word.
-From KV.Kcp Require Import Kcp Step Net Shift ShiftProofs.
+From KV.Kcp Require Import Kcp Step Net Shift ShiftBase ShiftProofs.
 Import ListNotations.
 Local Open Scope Z_scope.
 
@@ -14,7 +14,7 @@ Local Open Scope Z_scope.
 Theorem c12_shift_step :
   forall p k1 k2 o1 o2 k1' x1,
     is_u32 (ko p) -> is_u32 (kp p) -> is_u32 (co p) -> is_u32 (cp p) ->
-    inv k1 -> R p k1 k2 -> R_op p o1 o2 -> step k1 o1 = Ok (k1', x1) ->
+    inv k1 -> shf_wf k1 -> R p k1 k2 -> R_op p o1 o2 -> op_ok o1 -> step k1 o1 = Ok (k1', x1) ->
     exists k2' x2, step k2 o2 = Ok (k2', x2) /\ R p k1' k2' /\ R_result p o1 x1 x2.
 Proof. exact shift_step. Qed.
 Print Assumptions c12_shift_step.
@@ -24,7 +24,8 @@ Print Assumptions c12_shift_step.
 Theorem c12_shift_history :
   forall p ops1 ops2 k1 k2 k1' outs1,
     is_u32 (ko p) -> is_u32 (kp p) -> is_u32 (co p) -> is_u32 (cp p) ->
-    inv k1 -> R p k1 k2 -> Forall2 (R_op p) ops1 ops2 -> run k1 ops1 = Some (k1', outs1) ->
+    inv k1 -> shf_wf k1 -> R p k1 k2 -> Forall2 (R_op p) ops1 ops2 -> Forall op_ok ops1 ->
+    run k1 ops1 = Some (k1', outs1) ->
     exists k2' outs2, run k2 ops2 = Some (k2', outs2) /\ R p k1' k2' /\
       map o_data outs1 = map o_data outs2 /\
       Forall2 (fun x1 x2 => Forall2 (R_dgram (R_out_seg p)) (o_dgrams x1) (o_dgrams x2)) outs1 outs2.
@@ -36,6 +37,16 @@ Theorem c12_out_is_in :
   forall p s1 s2, R_out_seg p s1 s2 -> R_in_seg (mkShp (kp p) (ko p) (cp p) (co p)) s1 s2.
 Proof. exact out_seg_is_in_seg. Qed.
 Print Assumptions c12_out_is_in.
+
+(* the well-formedness side condition is an invariant of reachable states *)
+Theorem c12_wf_init : forall cv, is_u32 cv -> shf_wf (kcp_new cv).
+Proof. exact shf_wf_new. Qed.
+Print Assumptions c12_wf_init.
+
+Theorem c12_wf_step :
+  forall k o k' x, inv k -> shf_wf k -> op_ok32 o -> step k o = Ok (k', x) -> shf_wf k'.
+Proof. exact shift_step_wf. Qed.
+Print Assumptions c12_wf_step.
 
 (* a fresh endpoint started at shifted numbers is related to the one started at 0 *)
 Theorem c12_init :
